@@ -20,7 +20,7 @@ type treeFile struct {
 
 func genTree(r *rng) []treeFile {
 	var fs []treeFile
-	names := []string{"License", "Header", "MIT", "Apache-2.0", "a b", "x.y", "license", "v2", "sub", "deep", "t"}
+	names := []string{"License", "Header", "MIT", "Apache-2.0", "a b", "x.y", "license", "v2", "sub", "deep", "t", ".local", ".x", "..y", "corpus"}
 	suffixes := []string{".txt", ".txt", ".txt", "txt", ".TXT", ".md", "", ".txt.bak"}
 	n := 1 + r.intn(8)
 	for i := 0; i < n; i++ {
